@@ -17,9 +17,10 @@ const (
 	KindInvalid  = "invalid"  // policy with an unknown syscall name: rejected before any kernel contact
 	KindOversize = "oversize" // valid policy compiling to > 4096 instructions: kernel EINVAL
 	KindBadFlag  = "badflag"  // valid policy, undefined flag bit: kernel EINVAL
+	KindDenySec  = "denysec"  // valid: errno on seccomp(2) itself - once attached, every later seccomp(2) of that thread answers EPERM
 )
 
-var Kinds = []string{KindA, KindB, KindInvalid, KindOversize, KindBadFlag}
+var Kinds = []string{KindA, KindB, KindInvalid, KindOversize, KindBadFlag, KindDenySec}
 
 // Thread is the kernel-visible seccomp state of one thread.
 type Thread struct {
@@ -76,6 +77,16 @@ type Outcome struct {
 	Reason      string // "", "invalid-policy", "EINVAL", "EACCES", "tsync-refused"
 	MustBeError bool   // LoadFilter must return non-nil (property C09)
 	ReachedKern bool
+	Supported   bool // for "supported": what the probe can find out on this thread
+}
+
+func (t Thread) deniesSeccomp() bool {
+	for _, k := range t.Kinds {
+		if k == KindDenySec {
+			return true
+		}
+	}
+	return false
 }
 
 func isAncestor(parent, child []int) bool {
@@ -98,7 +109,7 @@ func isAncestor(parent, child []int) bool {
 // Apply performs op on s (mutating it) and returns the predicted outcome.
 func (s *State) Apply(o Op) Outcome {
 	if o.Op == "supported" {
-		return Outcome{ReachedKern: true}
+		return Outcome{ReachedKern: true, Supported: !s.Threads[o.T].deniesSeccomp()}
 	}
 	t := &s.Threads[o.T]
 	if o.Kind == KindInvalid {
@@ -108,6 +119,11 @@ func (s *State) Apply(o Op) Outcome {
 		t.NNP = true
 	}
 	out := Outcome{ReachedKern: true}
+	// a filter of the thread that answers errno to seccomp(2) runs before the system call does anything
+	if t.deniesSeccomp() {
+		out.Reason, out.MustBeError = "EPERM-by-filter", true
+		return out
+	}
 	// seccomp(2): flag validation and program length come first (EINVAL), then the privilege check,
 	// then program copy/verification; all of these leave the state unchanged.
 	if o.Kind == KindBadFlag {
